@@ -322,7 +322,8 @@ private:
         return false;
       }
     }
-    return true;
+    // the last character must not be a blank (same rule as the regex variant)
+    return value[value.size() - 1] != ' ';
   }
 #endif
 
